@@ -274,7 +274,16 @@ vh::Outcome run_c04_t(const vh::Case& c) {
                                 }
                             } else {
                                 cm.rel_call = vrt::now_step(); order.push_back(cm.bit);
-                                if (op.a & 1) { lbl_moved = true; typename COW::handle h2(std::move(h)); if (h) vrt::fail("move-not-null", "moved-from write handle is non-null"); h2.reset(); }
+                                if (op.a & 1) {
+                                    lbl_moved = true; typename COW::handle h2(std::move(h)); if (h) vrt::fail("move-not-null", "moved-from write handle is non-null");
+                                    if (op.a & 2) {
+                                        // permitted but unusual: cancel() on the moved-from (null) handle is a no-op; the moved-to handle still owns the writer lock
+                                        h.cancel();
+                                        if (vrt::me().held == 0) vrt::fail("moved-from-cancel-released", "cancel() on a moved-from write handle released the writer lock that the moved-to handle still depends on");
+                                        for (int s2 = 0; s2 < 2; ++s2) vrt::step();
+                                    }
+                                    h2.reset();
+                                }
                                 else if ((op.b & 16) && !c.sched.fault_k) { lbl_unwinding = true; auto rel = [&] { h.reset(); }; during_unwinding(rel); }     // the handle goes out of scope because an exception propagates: that still publishes
                                 else h.reset();
                                 cm.rel_ret = vrt::now_step(); cm.committed = true; commits_done++;
